@@ -4,7 +4,7 @@
 # in which facts, call sites or map entries are enumerated.
 cd "$(dirname "$0")/.." || exit 2
 T=$(mktemp -d /tmp/fddet.XXXXXX); rc=0
-for p in ${*:-C01 C02 C03 C04 C05 C06 C07 C08 C09 C10 C11 C12 C13 C14 C15 C16 C17 C19 C20}; do
+for p in ${*:-C01 C02 C03 C04 C05 C06 C07 C08 C09 C10 C11 C12 C13 C14 C15 C16 C17 C18 C19 C20}; do
   FDCHECK_NO_EVIDENCE=1 FDCHECK_DUMP_KEYS=$T/$p.a ./bin/fdcheck -prop $p -noselftest >/dev/null 2>&1
   FDCHECK_SHUFFLE=1 FDCHECK_NO_EVIDENCE=1 FDCHECK_DUMP_KEYS=$T/$p.b ./bin/fdcheck -prop $p -noselftest >/dev/null 2>&1
   FDCHECK_NO_EVIDENCE=1 FDCHECK_DUMP_KEYS=$T/$p.c ./bin/fdcheck -prop $p -tier thorough -noselftest >/dev/null 2>&1
